@@ -160,7 +160,9 @@ def w2_column_step(prog):
             for e in accesses:
                 if e['off'] != 0 or e['idx'] != 0:
                     r.viol('W2', key + '/foreign-column', fn.loc(e['ln']), 'step touches column %d of the list at offset %d: only the head column belongs to this component' % (e['idx'], e['off']), tag=fn.name)
-                if bit is False:
+                used = any((u['k'] == 'elem_field' and (u['col'], u['off'], u['idx']) == (e['col'], e['off'], e['idx'])) or
+                           (u['k'] in ('slot_write', 'slot_field_write') and tuple(u['slot'][1:4]) == (e['col'], e['off'], e['idx'])) for u in p.events)
+                if bit is False and used:
                     r.viol('W2', key + '/access-on-clear-bit', fn.loc(e['ln']), 'column 0 is accessed on a path where this component\'s bit is clear (it belongs to another component)', tag=fn.name)
             for e in p.events:
                 if e['k'] in ('col_access_dynamic', 'col_other', 'col_clobber'):
